@@ -52,6 +52,32 @@ theorem sorted_of_adjacent_class (es : List Entry)
     (h : ∀ i (h : i + 1 < es.length), cmpC (ckey es[i]) (ckey es[i + 1]) ≠ .gt) : SortedBy cmpC ckey es :=
   sortedBy_of_adjacent classLaws ckey es h
 
+/-! ## loading: the table the lookups run on is `.BRD`, whatever the busy flag said -/
+
+/-- cache.ReloadBCache on a segment nobody else is loading (a restarted daemon): for EVERY prior state of the segment
+— `BBusyState` set or clear (set = the leftover of a loader that died between taking the flag and its deferred
+release; the flag lives in SysV memory and survives the process), any stale records — the cache afterwards holds the
+records of `.BRD`, both orders are rebuilt from them, and the flag is released. -/
+theorem reload_loads_whatever_the_flag (s : LoadState) (file : List Board) :
+    reloadBCache s file = { busy := false, boards := file, sorted := true } := rfl
+
+/-- the rule "still busy after the wait ⇒ give up" (seeded change C11-r6-1) leaves a restarted daemon without a
+board table for ever: the flag is never released, nothing is loaded, nothing is sorted. -/
+def reloadGiveUp (s : LoadState) (file : List Board) : LoadState := if s.busy then s else reloadBCache s file
+
+theorem reload_give_up_witness (file : List Board) :
+    reloadGiveUp { busy := true, boards := [], sorted := false } file = { busy := true, boards := [], sorted := false } ∧
+      ∀ k, (Nat.repeat (fun s => reloadGiveUp s file) k { busy := true, boards := [], sorted := false }).busy = true := by
+  refine ⟨rfl, ?_⟩
+  intro k
+  induction k with
+  | zero => rfl
+  | succ k ih =>
+    simp only [Nat.repeat]
+    generalize Nat.repeat (fun s => reloadGiveUp s file) k { busy := true, boards := [], sorted := false } = x at ih ⊢
+    unfold reloadGiveUp
+    rw [if_pos ih]; exact ih
+
 /-! ## the bisection terminates and lands -/
 
 /-- getBidByNameCore / getBidByClassCore on ANY non-empty sorted view and ANY query: the unbounded `for` ends within
